@@ -27,6 +27,7 @@ THEOREMS = [
     "Ebv.C24.op_implies_safeop_slow", "Ebv.C24.op_implies_safeop_fast",
     "Ebv.C24.fmmu_freed_slow", "Ebv.C24.fmmu_freed_fast",
     "Ebv.C24.program_unregistered", "Ebv.C24.child_stopped",
+    "Ebv.C24.runsOf_mem", "Ebv.C24.restart_slow", "Ebv.C24.restart_fast",
 ]
 TRUSTED = ["hand-written model Ebv.Coro (coroutine language, cancellation semantics, transcription of SyncGroupBase.run, "
            "map_fmmu, FastSyncGroup.run/register_sync_group, wait_for_process), tied by trace correspondence at every reached await",
@@ -36,8 +37,12 @@ ASSUMPTIONS = ["asyncio delivers a cancellation as CancelledError at the await t
                "self.running stays True for slow/fast groups (nothing in /repo clears it in the parent process)",
                "the child process exits exactly when runningValue is cleared (or by itself: selfExit); pidfd/add_reader/multiprocessing are modelled by a stub child with a pipe",
                "each terminal has enough free FMMUs for its mappings (slot choice itself is C20)",
+               "a group is started again only after its task ended; the next run finds every terminal in the AL state of its last state "
+               "request (conformant terminals); `init` cases: terminals as EBPFTerminal.initialize leaves them (SAFE-OPERATIONAL)",
                "fmmu_freed is read as in DESIGN §4 C24: the slot-table entry is cleared (the FMMU register stays active on the cancellation path)"]
-RULE = ("case = (kind in slow/fast/proc, terminal list of 0..3 terminals x rw/ro x IN/OUT pdo x use_fmmu x start state x fmmu count, "
+RULE = ("histories: the group object started 1-3 times, every earlier run ended by a cancellation at a random await / in its last cycle, the "
+        "last run cancelled at every await; terminals set up by hand or brought up by the real EBPFTerminal.initialize on register-level "
+        "terminals; case = (kind in slow/fast/proc, terminal list of 0..3 terminals x rw/ro x IN/OUT pdo x use_fmmu x start state x fmmu count, "
         "cancellation index k or none); all k < number of awaits reached in start-up + 3 cycles; non-trivial = cancellation delivered")
 CYCLES = 3
 
@@ -118,15 +123,18 @@ class Env:
         self.child_fd = None
         self.child_seen = False
         self.state_log = []
+        self.quiet = False          # set while the terminals are being initialised: not part of the observation
+        self.setup = None
+        self.runs = []
 
     # ---- instrumentation -------------------------------------------------
     def log(self, ev):
-        if self.snapshot is None:
+        if self.snapshot is None and not self.quiet:
             self.trace.append(ev)
 
     def point(self, label):
         """an await of the code under test starts here"""
-        if self.snapshot is not None:
+        if self.snapshot is not None or self.quiet:
             return
         if label == "recv":
             self.recvs += 1
@@ -160,6 +168,8 @@ class Env:
                 return self.next_logical_addr
 
             async def roundtrip(self, cmd, pos, offset, *args, data=None, idx=0):
+                if env.setup is not None:        # start-up: the register-level terminals answer (real codec)
+                    return await env.setup.roundtrip(cmd, pos, offset, *args, data=data, idx=idx)
                 fut = env.loop.create_future()
                 if cmd is ECCmd.FPWR and offset == 0x120:
                     env.point(f"st{pos}={args[1]}")
@@ -210,7 +220,7 @@ class Env:
 
         class Slots(list):
             def __init__(self, pos, n):
-                super().__init__([None] * n)
+                super().__init__([None] * n if isinstance(n, int) else n)
                 self.pos = pos
 
             def __setitem__(self, j, v):
@@ -238,7 +248,25 @@ class Env:
             ec.al[t["pos"]] = t["start"]
             terms[term] = t["rw"]
             self.terminals.append(term)
+        self.Slots = Slots
         return [Dev(terms)]
+
+    async def initialize(self):
+        """`init` cases: the terminals are brought up by the real EBPFTerminal.initialize() (address, INIT, FMMU table, EEPROM,
+        sync managers, PRE-OP, PDO sizes, SAFE-OP) on register-level terminals that declare what the case says"""
+        from . import c20
+        spec = self.case["spec"]
+        slaves = [c20.Slave(t["nf"], [0x1000, t["outsz"], 0x1100, t["insz"]], True, i % 2 == 0) for i, t in enumerate(spec)]
+        self.setup, self.quiet = c20.make_bus(slaves, [False]), True
+        try:
+            for term in self.terminals:
+                del term.fmmu_used, term.pdo_in_sz, term.pdo_out_sz, term.pdo_in_off, term.pdo_out_off
+            await asyncio.gather(*[term.initialize(-i, t["pos"]) for i, (term, t) in enumerate(zip(self.terminals, spec))])
+        finally:
+            self.setup, self.quiet = None, False
+        for term, t, sl in zip(self.terminals, spec, slaves):
+            term.fmmu_used = self.Slots(t["pos"], list(term.fmmu_used))
+            self.ec.al[t["pos"]] = sl.regs[0x130] & 0xf
 
     # ---- environment patches ----------------------------------------------
     @contextlib.contextmanager
@@ -259,7 +287,17 @@ class Env:
 
         self.table = {struct.pack("<I", i): struct.pack("<I", 1000 + i) for i in self.case.get("busy", [])}
         self.table0 = dict(self.table)
-        rnd = iter(list(self.case.get("busy", [])) + [self.case.get("index", 0)])
+
+        class Draws:             # the same proposals at every start of the group
+            def __init__(self):
+                self.rewind()
+
+            def rewind(self):
+                self.it = iter(list(env.case.get("busy", [])) + [env.case.get("index", 0)])
+
+            def __next__(self):
+                return next(self.it)
+        rnd = self.draws = Draws()
 
         def lookup(fd, key, fmt):
             env.log(f"lookup{struct.unpack('<I', key)[0]}")
@@ -381,8 +419,32 @@ class Env:
         self.ec = ec
 
     async def main(self):
-        self.task = self.sg.start()
-        await asyncio.wait([self.task])
+        if self.case.get("init"):
+            await self.initialize()
+        ks = list(self.case.get("prev") or []) + [self.case["k"]]
+        for n, k in enumerate(ks):      # earlier runs of the same group object (each ended by its cancellation), then the run judged last
+            self.k, self.trace, self.npoints, self.recvs, self.snapshot = k, [], 0, 0, None
+            self.draws.rewind()
+            self.task = self.sg.start()
+            await asyncio.wait([self.task])
+            if n + 1 < len(ks):
+                self.runs.append(self.result() + (self.facts(),))
+                if not self.task.done():
+                    break
+
+    def facts(self):
+        case, facts = self.case, {}
+        facts["slots"] = {t.position: list(t.fmmu_used) for t in self.terminals}
+        facts["fmmu_active"] = sorted(f"{p}[{j}]" for (p, j), a in self.ec.fmmu_active.items() if a)
+        if case["kind"] == "fast":
+            facts["table_restored"] = self.table == self.table0
+            facts["groups"] = len(self.ec.sync_groups)
+        if case["kind"] == "proc":
+            facts["running"] = bool(self.sg.runningValue.value)
+            facts["child_exited"] = self.child.exited
+            facts["child_seen"] = self.child_seen
+            facts["reader_left"] = self.child_fd in getattr(self.loop._selector, "_fd_to_key", {})
+        return facts
 
     def result(self):
         if self.snapshot is not None:
@@ -416,16 +478,8 @@ def run_impl(case):
             except Stop:
                 env.snapshot = (list(env.trace), "runaway", env.npoints)
             trace, out, n = env.result()
-            facts["slots"] = {t.position: list(t.fmmu_used) for t in env.terminals}
-            facts["fmmu_active"] = sorted(f"{p}[{j}]" for (p, j), a in env.ec.fmmu_active.items() if a)
-            if case["kind"] == "fast":
-                facts["table_restored"] = env.table == env.table0
-                facts["groups"] = len(env.ec.sync_groups)
-            if case["kind"] == "proc":
-                facts["running"] = bool(env.sg.runningValue.value)
-                facts["child_exited"] = env.child.exited
-                facts["child_seen"] = env.child_seen
-                facts["reader_left"] = env.child_fd in getattr(loop._selector, "_fd_to_key", {})
+            facts.update(env.facts())
+            facts["earlier"] = list(env.runs)
             # tear down whatever is still alive (not part of the observation)
             if env.snapshot is None:
                 env.snapshot = (trace, out, n)
@@ -458,10 +512,26 @@ def show(trace, out, n):
     return " ".join(trace) + " | " + out + " | " + str(n)
 
 
+def show_all(trace, out, n, facts):
+    """the earlier runs of the same group object, then the run the case's k belongs to"""
+    return " || ".join([show(*r[:3]) for r in facts.get("earlier", [])] + [show(trace, out, n)])
+
+
 def oracle(ctx, case, trace, out, facts):
-    """the property text on the implementation's own trace"""
-    obs = show(trace, out, 0) + " " + str(facts)
-    if case["k"] is None:
+    """the property text on the implementation's own trace, for every run of the group's history (each earlier run was
+    cancelled too and is judged exactly like the last one, on its own trace and on the tables as it left them)"""
+    prev = case.get("prev") or []
+    ok = ctx.require(len(facts.get("earlier", [])) == len(prev), "an earlier run of the group did not end after its cancellation",
+                     case, show_all(trace, out, 0, facts), "ends-cancelled")
+    for j, (tr, o, n, f) in enumerate(facts.get("earlier", [])):
+        oracle_run(ctx, case, prev[j], tr, o, f, f"run {j}: ")
+    if ok:
+        oracle_run(ctx, case, case["k"], trace, out, facts, f"run {len(prev)}: " if prev else "")
+
+
+def oracle_run(ctx, case, k, trace, out, facts, which):
+    obs = which + show(trace, out, 0) + " " + str({x: y for x, y in facts.items() if x != "earlier"})
+    if k is None:
         return      # never cancelled: nothing is claimed (the run is only compared with the model)
     delivered = True
     ctx.require(out == "cancelled", "task did not end with CancelledError", case, obs, "ends-cancelled")
@@ -501,6 +571,8 @@ def gen_spec(rng, nterm):
 
 def family(kind, spec, extra, cycles=CYCLES):
     """one terminal set -> the uncancelled run plus one case per await reached"""
+    if extra.get("init"):       # what the library's start-up leaves: EBPFTerminal.apply_eeprom ends with SAFE-OPERATIONAL
+        spec = [dict(t, start=4) for t in spec]
     base = {"kind": kind, "spec": spec, "terms": model_terms(spec), "cycles": cycles, **extra}
     first = dict(base, k=None)
     res = run_impl(first)
@@ -541,14 +613,35 @@ def run(ctx):
         fams.append(("proc", [], {"selfExit": se}))
         fams.append(("proc", gen_spec(ctx.rng, 2), {"selfExit": se}))
     cases, impl = [], []
-    for kind, spec, extra in fams:
-        for c, (trace, out, n, facts) in family(kind, spec, extra):
+
+    def do(kind, spec, extra, cycles=CYCLES):
+        n0 = None
+        for c, (trace, out, n, facts) in family(kind, spec, extra, cycles):
+            if c["k"] is None:
+                n0 = n
             cases.append(c)
-            impl.append(show(trace, out, n))
-            ctx.case(c, nontrivial=c["k"] is not None, kind=f"{kind}:{out}")
+            impl.append(show_all(trace, out, n, facts))
+            ctx.case(c, nontrivial=c["k"] is not None, kind=f"{kind}:{out}" + (":init" if c.get("init") else "") +
+                     (f":start{len(c['prev']) + 1}" if c.get("prev") else ""))
             if facts.get("fmmu_active") and out == "cancelled":
                 ctx.stats["note:fmmu-register-left-active-after-cancel"] += 1
             oracle(ctx, c, trace, out, facts)
+        return n0
+    for fi, (kind, spec, extra) in enumerate(fams):
+        n0 = do(kind, spec, extra)
+        if kind == "proc" or not n0:
+            continue
+        # the same group started again after a cancellation (start-up, OPERATIONAL request, cycles alike), and terminals that
+        # went through the library's own initialisation; every await of the run that follows is a cancellation point again
+        # (earlier runs are cancelled within the awaits of start-up + 2 cycles, the number the model's loops are given)
+        n2 = n0 - 2 * (CYCLES - 2)
+        firsts = sorted({n2 - 1, ctx.rng.randrange(n2)}) if fi < 16 or ctx.rng.random() < ctx.n(0.3, 1.0) else []
+        for k1 in firsts:
+            do(kind, spec, {**extra, "prev": [k1]}, cycles=2)
+        if spec and all(t["insz"] or t["outsz"] for t in spec) and (fi < 16 or ctx.rng.random() < ctx.n(0.3, 1.0)):
+            n1 = do(kind, spec, {**extra, "init": True}, cycles=2)
+            if n1 and ctx.rng.random() < 0.5:
+                do(kind, spec, {**extra, "init": True, "prev": [ctx.rng.randrange(n1), ctx.rng.randrange(n1)]}, cycles=2)
     ctx.extra["families"] = len(fams)
     model = ctx.drive(DRIVER, cases, "runCancel")
     if model is not None:
@@ -559,14 +652,16 @@ def run(ctx):
 def replay(ctx, case):
     trace, out, n, facts = run_impl(case)
     oracle(ctx, case, trace, out, facts)
-    return {"trace": show(trace, out, n), "facts": facts}
+    return {"trace": show_all(trace, out, n, facts), "facts": {x: y for x, y in facts.items() if x != "earlier"}}
 
 
 LEVEL_TEXT = ("Lean 4 proof over a structured-coroutine model with Python's cancellation semantics: for every cancellation index k, "
               "every terminal list and every number of cycles the slow and fast group end with CancelledError (or k is never reached "
               "and the run equals the uncancelled one), every OPERATIONAL request is followed by a SAFE-OPERATIONAL request for the same "
               "terminal, the FMMU slot table is empty at the end, the program-table and sync_groups entries are deleted, and the process "
-              "group clears runningValue and observes the child's termination before it re-raises. Tied to /repo by exact trace "
+              "group clears runningValue and observes the child's termination before it re-raises; the same for every run of a group that is "
+              "started again and again, each run cancelled anywhere (runsOf, restart_slow, restart_fast: each run is a run on the same terminals in "
+              "whatever AL state the run before left them). Tied to /repo by exact trace "
               "correspondence of the real coroutines with cancellation injected at every await reached in start-up and three cycles.")
 LEVEL_NOTE = ("trusted: Lean kernel + propext/Classical.choice/Quot.sound; hand transcription Ebv.Coro validated (not verified) by differential "
               "traces; asyncio's cancellation delivery, pidfd/add_reader and multiprocessing are modelled (stub child); a second cancellation, "
